@@ -1,2 +1,87 @@
+"""C16 (last clause): params(), limits() and phases() show for each component
+the parameters, non-default limits and per-phase values it was configured
+with (tables as 'interp')."""
+from . import observe as O
+from .spec import APPLICABLE, LIMITS_DEFAULT, LOADS, LIST_PHASE_KINDS, is_table
+
+COL = {
+    "vo": "vo (V)", "vdrop": "vdrop (V)", "rs": "rs (Ohm)", "rt": "rt (°C/W)", "eff": "eff (%)", "ig": "ig (A)",
+    "iq": "iq (A)", "ii": "ii (A)", "iis": "iis (A)", "pwr": "pwr (W)", "pwrs": "pwrs (W)", "loss": "loss",
+}
+LIMCOL = {"vi": "V", "vo": "V", "vd": "V", "ii": "A", "io": "A", "pi": "W", "po": "W", "pl": "W", "tr": "°C", "tp": "°C"}
+
+
+def _same(cell, val):
+    if is_table(val):
+        return cell == "interp"
+    if isinstance(val, bool):
+        return cell == val
+    if isinstance(val, list):
+        return cell == val or cell == [abs(x) for x in val]
+    return cell == abs(val) or cell == val
+
+
 def check_reports(sess):
-    pass
+    m = sess.model
+    sut = sess.sut
+    r = sess._guard(lambda: (O.canon_params(sut.params(limits=True), mask=False), O.canon_params(sut.limits(), mask=False), O.canon_phases(sut.phases())))
+    if r[0] != "ok":
+        sess.fail("C16", "report-succeeds", "params()/limits()/phases() raised %s(%s)" % (r[1], r[2]))
+    par, lim, phs = r[1]
+    if set(par["rows"]) != set(m.comps) or par["n"] != len(m.comps):
+        sess.fail("C16", "params-lists-live", "params() rows %s vs components %d" % (sorted(set(par["rows"]) ^ set(m.comps))[:6], len(m.comps)))
+    if set(lim["rows"]) != set(m.comps) or lim["n"] != len(m.comps):
+        sess.fail("C16", "limits-lists-live", "limits() rows differ from the live components")
+    for n in m.order:
+        spec = m.comps[n]
+        k = spec["kind"]
+        row = par["rows"][n]
+        mosfet = k == "Rectifier" and not (is_table(spec["p"].get("vdrop")) or spec["p"].get("vdrop", 0.0) != 0.0)
+        for key, val in spec["p"].items():
+            if k == "Rectifier":
+                if mosfet and key == "vdrop":
+                    continue
+                if not mosfet and key in ("rs", "ig", "iq"):
+                    continue  # ignored in diode mode
+            if not _same(row.get(COL[key]), val):
+                sess.fail("C16", "params-show-configured", "%s (%s): %s cell %r, configured %r" % (n, k, COL[key], row.get(COL[key]), val))
+        for key in APPLICABLE[k]:
+            want = (spec.get("lim") or {}).get(key)
+            c1 = row.get("%s limit (%s)" % (key, LIMCOL[key]))
+            c2 = lim["rows"][n].get("%s  (%s)" % (key, LIMCOL[key]))
+            if want is None or list(want) == LIMITS_DEFAULT[key]:
+                want = ""
+            for cell, rep in ((c1, "params(limits=True)"), (c2, "limits()")):
+                if cell != want and not (want != "" and cell == list(want)):
+                    sess.fail("C16", "limits-show-configured", "%s (%s): %s %s cell %r, configured %r" % (n, k, rep, key, cell, want))
+    if m.sys_phases:
+        if phs is None:
+            sess.fail("C16", "phases-report", "phases() returned None with phases defined")
+        names = set(x[0] for x in phs["rows"])
+        want_names = set(n for n in m.order if m.kind(n) != "Rectifier")
+        if names != want_names:
+            sess.fail("C16", "phases-lists-live", "phases() components %s" % sorted(names ^ want_names)[:6])
+        order = list(m.sys_phases.keys())
+        for n in m.order:
+            k = m.kind(n)
+            if k == "Rectifier":
+                continue
+            conf = m.phase_conf[n]
+            if k in ("RLoss", "VLoss") or not conf:
+                want = ["N/A"]
+            else:
+                want = [p for p in order if p in conf] or ["N/A"]
+            got = [x[1] for x in phs["rows"] if x[0] == n]
+            if sorted(got) != sorted(want):
+                sess.fail("C16", "phases-show-configured", "%s (%s): active phases %s, configured %s" % (n, k, got, want))
+            if k in LOADS:
+                col = {"PLoad": "pwr (W)", "ILoad": "ii (A)", "RLoad": "rs (Ohm)"}[k]
+                key = {"PLoad": "pwr", "ILoad": "ii", "RLoad": "rs"}[k]
+                for p in want:
+                    cell = phs["rows"][(n, p)][col]
+                    val = abs(m.comps[n]["p"][key]) if p == "N/A" else conf[p]
+                    if cell != val and cell != abs(val):
+                        sess.fail("C16", "phases-show-values", "%s phase %s: %s cell %r, configured %r" % (n, p, col, cell, val))
+    elif phs is not None:
+        sess.fail("C16", "phases-report", "phases() returned a table without system phases")
+    sess.stats["c16_report_checks"] += 1
